@@ -68,7 +68,7 @@ m = {
     ],
     "checks": checks,
     "notes": "All twenty properties are claimed at level `other` through named structural necessary conditions; the behavioural remainder of each is listed under does_not_decide in its evidence file and in DESIGN.md §4. "
-             "source_commits lists the unguarded `fix:` commits (genuine defects F1–F8); no hook commits exist.",
+             "source_commits lists the unguarded `fix:` commits (genuine defects F1–F8 and F11); no hook commits exist.",
     "not_applicable": [],
 }
 json.dump(m, open(os.path.join(VERIF, "MANIFEST.json"), "w"), indent=1)
